@@ -816,6 +816,42 @@ func (w *world) opBalance(op ledgerOp) {
 	w.emit(e)
 }
 
+func (w *world) opHistory(op ledgerOp) {
+	n, wl := w.nodes[op.N], w.wallets[op.Wl]
+	if n == nil {
+		return
+	}
+	addr := "never-seen-address-" + op.Wl
+	if wl != nil {
+		addr = wl.Address()
+	}
+	before, _ := w.project(n)
+	trxs, err := n.ab.ReadDAGTransactionsByAddress(w.ctx, addr)
+	after, _ := w.project(n)
+	e := event{"a": "History", "n": op.N, "wl": op.Wl, "res": "ok", "out": []string{}, "nodup": true, "unchanged": sameJSON(before, after)}
+	if err != nil {
+		e["res"] = "error"
+	} else {
+		seen := map[string]bool{}
+		out := []string{}
+		for i := range trxs {
+			name, ok := w.trxName[trxs[i].Hash]
+			if !ok {
+				name = fmt.Sprintf("unknown:%x", trxs[i].Hash[:6])
+			} else if name != "g" && !sameTrx(&trxs[i], w.trx[name]) {
+				name = "altered:" + name
+			}
+			if seen[name] {
+				e["nodup"] = false
+			}
+			seen[name] = true
+			out = append(out, name)
+		}
+		e["out"] = out
+	}
+	w.emit(e)
+}
+
 func sameJSON(a, b any) bool {
 	x, _ := json.Marshal(a)
 	y, _ := json.Marshal(b)
@@ -986,6 +1022,8 @@ func (w *world) run(b *behaviour) {
 				w.opTruncate(op)
 			case "balance":
 				w.opBalance(op)
+			case "history":
+				w.opHistory(op)
 			case "readtrx":
 				w.opReadTrx(op)
 			case "readvtx":
